@@ -158,6 +158,8 @@ def run_key(r_, why):
     if why == "GetAddress":
         return "C15:send:GetAddress:" + family(r_["ver"])    # the wallet object reports another address than the specification derives
     cls = r_["st"] if r_["entry"] in ("SendV2", "Send") else "caller-params"
+    if r_.get("prior"):
+        cls += ":after-earlier-sends-on-the-same-wallet-value"
     if why.split(":")[0] in ("Build", "Send", "Return"):
         return "C15:send:%s:%s:%s" % (why, family(r_["ver"]), cls)
     return "C15:send:%s:%s" % (why, r_["entry"])            # Panic, Timeout, no-return, order of calls
@@ -194,8 +196,12 @@ def one_rotation(ck, codes, seeds, wcs, rot, W, first_vec, out, nrot):
     """Generate, replay and judge the histories of one key / workchain assignment. Returns (vectors, accepted runs, rejected (run, why))."""
     vs, res = gen_vectors(ck, codes, seeds, wcs, rot, nrot)
     check_generator(vs)
+    # histories of ONE wallet value: every fifth history once more after 1..3 earlier sends through the same value (a send has no
+    # memory in the statement: seqno and init follow from the chain state of THIS send)
+    vs = vs + [dict(copy.deepcopy(v), prior=1 + (k // 5) % 3) for k, v in enumerate(vs) if k % 5 == 0 and v["acct"]["st"] != "err"]
     for i, v in enumerate(vs):
         v["W"], v["rot"], v["vec"] = W, rot, first_vec + i
+        v.setdefault("prior", 0)
     out.setdefault("gen_states", res.distinct)
     out.setdefault("rerun_for_timing", 0)
     runs = replay_vectors(ck, vs, "vectors_rot%d" % rot, 768)
@@ -286,9 +292,9 @@ def send_part(ck, codes, out):
             if not rej3 or run_key(r3, first_note(notes3, 1, "run")) != key:
                 raise Infra("violation %s on vector %d did not reproduce with a longer window" % (key, r_["vec"]))
         f = run_facts(r_)
-        what = ("%s %s (confirm=%s, account %s%s, send %s, polls %s): recorded run is not a behaviour of WalletSend: %s; the history requires %s%s, the call "
+        what = ("%s %s (%sconfirm=%s, account %s%s, send %s, polls %s): recorded run is not a behaviour of WalletSend: %s; the history requires %s%s, the call "
                 "returned %s after %d polls (%d histories of this class)") % (
-            r_["ver"], r_["entry"], r_["confirm"], r_["st"] or "-", "(" + r_["n"] + ")" if r_["n"] else "", v["send"] or "-",
+            r_["ver"], r_["entry"], "after %d earlier sends through the same wallet value, " % r_["prior"] if r_.get("prior") else "", r_["confirm"], r_["st"] or "-", "(" + r_["n"] + ")" if r_["n"] else "", v["send"] or "-",
             "".join("E" if p["r"] == "err" else "=" if p["v"] == v["same"] else "<" if int(p["v"]) < int(v["same"]) else "+" for p in v["polls"]) or "-",
             why, v["exp"]["res"], " at poll %d" % v["exp"]["npolls"] if v["exp"]["advanced"] else "", f["res"], f["npolls"], count)
         for _ in range(count):
